@@ -129,11 +129,13 @@ struct Resolve {
 
 	// which child region r takes when resolved by 'kind'; commit = record it as the expectation
 	std::map<std::pair<int,int>, int> memoHow;
+	bool scheduleSeen = false;
 	std::map<std::pair<int,int>, int> memo;   // (request, region) -> child: a region is resolved (and draws) once per request
 	int chooseChild(int r, int kind, int by, bool commit) {
 		const std::pair<int,int> key(by, r);
 		auto it = memo.find(key);
 		if (it != memo.end()) {
+			if (dontCare[size_t(r)]) scheduleSeen = true;
 			if (commit && it->second >= 0) { set(r, it->second, memoHow[key], by); descend(sh.kids[size_t(r)][size_t(it->second)], kind, by); }
 			return it->second;
 		}
@@ -144,9 +146,10 @@ struct Resolve {
 		int c = -1;
 		switch (eff) {
 		case K_RESTART: c = 0; break;
-		case K_RESUME: c = before.resumable[size_t(r)] >= 0 ? before.resumable[size_t(r)] : 0; if (schedule[size_t(r)] >= 0) dontCare[size_t(r)] = 1; break;
+		case K_RESUME: c = before.resumable[size_t(r)] >= 0 ? before.resumable[size_t(r)] : 0; if (schedule[size_t(r)] >= 0) { dontCare[size_t(r)] = 1; scheduleSeen = true; } break;
 		case K_SELECT: c = selectOf(r); usedSelect = true; break;
 		case K_UTILIZE: {
+			const bool seenBefore = scheduleSeen; scheduleSeen = false;
 			long double best = -1; c = 0;
 			std::vector<long double> us;
 			for (int k = 0; k < sh.st[size_t(r)].width; ++k) {
@@ -159,8 +162,12 @@ struct Resolve {
 			alts[size_t(r)].clear();
 			bool exact = true; for (auto u : us) if ((long double)(float) u != u) exact = false;
 			if (!exact) for (int k = 0; k < int(us.size()); ++k) if (k != c && us[size_t(k)] >= best - best * 1e-6L) alts[size_t(r)].push_back(k);
+			// a utility that came through a region whose remembered sub-state a scheduling request of this batch may have changed
+			if (scheduleSeen) dontCare[size_t(r)] = 1;
+			scheduleSeen = scheduleSeen || seenBefore;
 			break; }
 		case K_RANDOMIZE: {
+			const bool seenBefore = scheduleSeen; scheduleSeen = false;
 			++randomResolved;
 			int top = -1000000;
 			for (int ch : sh.kids[size_t(r)]) top = std::max(top, sh.st[size_t(ch)].headless ? 0 : rankOf(ch));
@@ -177,7 +184,7 @@ struct Resolve {
 			alts[size_t(r)].clear();
 			// exact when sum, cursor and every partial sum are representable in float: then the interval rule is strict ([lo, hi): a value on a boundary belongs to the next sub-state)
 			bool exact = (long double)(float) sum == sum && (long double)(float) cursor == cursor;
-			{ long double a2 = 0; for (int k = 0; k < sh.st[size_t(r)].width; ++k) { if ((long double)(float) u[size_t(k)] != u[size_t(k)]) exact = false; a2 += u[size_t(k)]; if ((long double)(float) a2 != a2 || (long double)(float)(cursor - a2) != (cursor - a2)) exact = false; } }
+			{ long double a2 = 0; for (int k = 0; k < sh.st[size_t(r)].width; ++k) { if ((long double)(float) u[size_t(k)] != u[size_t(k)]) exact = false; const long double a1 = a2; a2 += u[size_t(k)]; if (a2 - u[size_t(k)] != a1 || a2 - a1 != u[size_t(k)]) exact = false;   /* the reference arithmetic itself rounded */ if ((long double)(float) a2 != a2 || (long double)(float)(cursor - a2) != (cursor - a2)) exact = false; } }
 			for (int k = 0; k < sh.st[size_t(r)].width; ++k) {
 				if (u[size_t(k)] <= 0) continue;
 				const long double lo = acc; acc += u[size_t(k)];
@@ -186,6 +193,9 @@ struct Resolve {
 			}
 			if (exact) probe_exactBoundary = probe_exactBoundary || [&] { long double a3 = 0; for (auto x : u) { a3 += x; if (a3 == cursor) return true; } return cursor == 0; }();
 			if (c < 0) for (int k = sh.st[size_t(r)].width - 1; k >= 0; --k) if (u[size_t(k)] > 0) { c = k; break; }
+			if (getenv("VF_DEBUG_MODEL")) { fprintf(stderr, "model: randomize region %d by %d: sum=%Lg cursor=%Lg exact=%d c=%d u=", r, by, sum, cursor, int(exact), c); for (auto x : u) fprintf(stderr, "%Lg ", x); fprintf(stderr, "\n"); }
+			if (scheduleSeen) dontCare[size_t(r)] = 1;
+			scheduleSeen = scheduleSeen || seenBefore;
 			break; }
 		default: c = 0; break;
 		}
@@ -492,6 +502,20 @@ static bool isSubsequence(const std::vector<Tr>& small, const std::vector<Tr>& b
 	return j == small.size();
 }
 
+static void checkBulkAppend(World& w, int i, const Op& op, const Step& st) {
+	if (!w.wants("C19")) return;
+	Slot& s = w.slots[size_t(i)];
+	if (!(s.node->caps() & CAP_HISTORY) || !processingOp(op) || !s.obs.activated) return;
+	if (st.rounds.empty() || !st.phantom.empty()) return;     // rounds nobody saw may have appended too
+	// each approved round is bulk-appended to the set of applied transitions: order, count and contents preserved
+	w.checked("C19.bulk_append");
+	if (st.rounds.size() > 1) w.probe("bulk_append_several_rounds");
+	if (!(s.obs.prev == st.approved)) {
+		char b[200]; std::snprintf(b, sizeof b, "%s: %zu request(s) in approved rounds, previousTransitions() holds %zu (or differs in order / content)", s.h->role.c_str(), st.approved.size(), s.obs.prev.size());
+		w.violate("C19.bulk_append", b, i);
+	}
+}
+
 static void checkHistory(World& w, int i, const Op& op, const Obs& before, const Step& st) {
 	if (!w.wants("C09")) return;
 	Slot& s = w.slots[size_t(i)];
@@ -521,7 +545,11 @@ static void checkHistory(World& w, int i, const Op& op, const Obs& before, const
 		if (v == -2 || v >= int(prev.size())) { std::snprintf(b, sizeof b, "%s: lastTransitionTo(%d) points outside previousTransitions()", h.role.c_str(), k); w.violate("C09.last_to", b, i); return; }
 	}
 	// after a single approved request: it is the last transition to every state it activated
-	if (st.rounds.size() == 1 && !st.phantomReal && !st.rounds[0].cancelled && st.approved.size() == 1 && st.approved[0].kind != K_SCHEDULE && prev.size() == 1 && before.alive && before.activated) {
+	// ... also when later substitution rounds of the same step were vetoed: a vetoed round "changes nothing" (documented deviation: it wipes the marks)
+	bool laterAllVetoed = st.rounds.size() > 1 && !st.rounds[0].cancelled;
+	for (size_t k = 1; k < st.rounds.size(); ++k) if (!st.rounds[k].cancelled) laterAllVetoed = false;
+	if (laterAllVetoed) w.probe("single_approved_then_vetoed_rounds");
+	if ((st.rounds.size() == 1 || laterAllVetoed) && !st.phantomReal && !st.rounds[0].cancelled && st.approved.size() == 1 && st.approved[0].kind != K_SCHEDULE && prev.size() == 1 && before.alive && before.activated) {
 		w.checked("C09.last_to_single");
 		for (int k = 0; k < sh.n; ++k) {
 			if (before.active[size_t(k)] || !s.obs.active[size_t(k)]) continue;
@@ -529,7 +557,7 @@ static void checkHistory(World& w, int i, const Op& op, const Obs& before, const
 				std::snprintf(b, sizeof b, "%s: a single approved %s(%d) activated state %d, but lastTransitionTo(%d) is %s", h.role.c_str(), kindName(st.approved[0].kind), st.approved[0].dest, k, k, s.obs.lastTo[size_t(k)] < 0 ? "null" : "another entry");
 				bool util = st.approved[0].kind == K_UTILIZE || st.approved[0].kind == K_RANDOMIZE;
 				for (int x = sh.st[size_t(k)].parent; x >= 0; x = sh.st[size_t(x)].parent) if (sh.st[size_t(x)].strategy == 3 || sh.st[size_t(x)].strategy == 4) util = true;
-				w.violate("C09.last_to_single", b, i, util ? "last_to_unpinned_by_utility_resolution" : "");
+				w.violate("C09.last_to_single", b, i, util ? "last_to_unpinned_by_utility_resolution" : (laterAllVetoed ? "vetoed_round_wipes_last_transition_marks" : ""));
 				return;
 			}
 		}
@@ -689,10 +717,12 @@ static void checkConfiguration(World& w, int i, const Op& op, const Obs& before,
 			std::snprintf(b, sizeof b, "%s: region %d: requests of one batch disagree; the later one prescribes sub-state %d but %d is active", h.role.c_str(), g, r.req[size_t(g)], ca.active[size_t(g)]);
 			// documented: a region an earlier request already resolved (as a sibling, by evaluation, or as its destination) is forwarded to, not re-resolved
 			// an earlier request that names a destination inside g is not "conflicting" with a later request that merely re-enters g's surroundings
-			if (!reqBeforeLast.empty() && reqBeforeLast[size_t(g)] >= 0 && howBeforeLast[size_t(g)] == 100 && r.how[size_t(g)] != 100) continue;
-			const bool earlierResolved = !reqBeforeLast.empty() && reqBeforeLast[size_t(g)] >= 0 && howBeforeLast[size_t(g)] != 100;
+			if (!reqBeforeLast.empty() && reqBeforeLast[size_t(g)] >= 0 && howBeforeLast[size_t(g)] == 100 && r.how[size_t(g)] != 100 && !(lastReal >= 0 && st.approved[size_t(lastReal)].dest == g)) continue;
+			const bool earlierResolved = !reqBeforeLast.empty() && reqBeforeLast[size_t(g)] >= 0;     // by resolution, or by the path of an earlier request: either way the slot is taken and the later request is forwarded past it
 			const bool earlierEvaluated = touched[size_t(g)] > 1 && (sh.usesUtility || nReal > 1);
-			w.violate(oracle, b, i, (earlierResolved || earlierEvaluated) && r.how[size_t(g)] != 100 ? "batch_later_request_not_overriding" : ""); return;
+			const int gpar = sh.st[size_t(g)].parent;
+			const bool namedActiveUnderOrtho = lastReal >= 0 && st.approved[size_t(lastReal)].dest == g && gpar >= 0 && sh.isOrtho(gpar) && cb.active[size_t(g)] >= 0;
+			w.violate(oracle, b, i, namedActiveUnderOrtho ? "active_region_under_ortho_not_retargeted" : ((earlierResolved || earlierEvaluated) && r.how[size_t(g)] != 100 ? "batch_later_request_not_overriding" : "")); return;
 		}
 		// a destination region that is already active below an orthogonal parent is not re-targeted by the library (documented)
 		std::string tag;
@@ -765,6 +795,7 @@ void modelAfterOp(World& w, int i, const Op& op, const Obs& before) {
 	checkRounds(w, i, op, before, st);
 	checkGuardPending(w, i, op, before, st);
 	checkHistory(w, i, op, before, st);
+	checkBulkAppend(w, i, op, st);
 	checkConfiguration(w, i, op, before, st);
 }
 
